@@ -9,6 +9,8 @@ import (
 	"fmt"
 	"io"
 	"os"
+
+	"github.com/tencent/goom/internal/simhook"
 )
 
 func osReadSymbolsFromExeFile() (symTable *gosym.Table, err error) {
@@ -23,6 +25,7 @@ func osReadSymbolsFromExeFile() (symTable *gosym.Table, err error) {
 		symTableLoadError = err
 		return
 	}
+	reader = simhook.WrapReaderAt(reader)
 
 	return osReadSymbols(reader)
 }
